@@ -74,6 +74,7 @@ pub struct PcStats {
     pub static_refusals: AtomicU64,
     pub ignored_faults: AtomicU64,
     pub fatal_returns: AtomicU64,
+    pub panics: AtomicU64,
 }
 
 fn word(data: &[u8], i: usize) -> U256 {
@@ -194,9 +195,9 @@ pub fn test_precompiles(layout: &Layout, slots: u64, stats: Arc<PcStats>) -> Vec
                 let data = input.data().to_vec();
                 let a = table_addr(small(word(&data, 0), table));
                 let val = input.state().sload(a, U256::ZERO)?.data;
-                if val == U256::from(7u64) {
+                if val % U256::from(8u64) == U256::from(7u64) {
                     stats.fatal_returns.fetch_add(1, Ordering::Relaxed);
-                    return Err(ParallelPrecompileError::Fatal(PrecompileError::Fatal("verif fatal-if: slot 0 is 7".into())));
+                    return Err(ParallelPrecompileError::Fatal(PrecompileError::Fatal("verif fatal-if: slot 0 is 7 mod 8".into())));
                 }
                 Ok(out(val, 200, reservoir))
             }),
@@ -272,6 +273,95 @@ impl Campaign for C11 {
         rep.bump("state_dependent_fatal_returns", stats.fatal_returns.load(Ordering::Relaxed));
         let nontrivial = tstats.nontrivial() && ref_calls > 0;
         let ctx = IterCtx { prop: "C11", iter_seed, family_idx: 0 };
+        record(rep, &ctx, &case, &rc, &plan, &out, &tstats, violations, nontrivial);
+    }
+}
+
+/// C05 (part): a custom precompile that panics on a state-dependent condition. The panic must
+/// reach the caller of execute() with its payload, every scheduler thread must end, nothing stalls.
+pub struct C05PrecompilePanic;
+
+impl Campaign for C05PrecompilePanic {
+    fn prop(&self) -> &'static str {
+        "C05"
+    }
+    fn iterate(&self, iter_seed: u64, rep: &mut ShardReport, _deadline: Instant) {
+        let mut r = Rng::new(iter_seed);
+        let params = GenParams {
+            family: "precompile-panic",
+            specs: crate::world::MODERN_SPECS,
+            txs: (3, 14),
+            n_eoa: 4,
+            n_con: 2,
+            n_precompiles: 4,
+            mix: Mix { call: 14, staticcall: 4, sload: 8, sstore: 8, slots: 3, vmax: 1, len: (3, 10), ..Mix::default() },
+            kind_w: [10, 1, 0, 8],
+            ..GenParams::default()
+        };
+        let case = generate(&params, r.next());
+        let stats = Arc::new(PcStats::default());
+        let mut pcs = test_precompiles(&case.layout, case.slots, stats.clone());
+        // replace the fatal-if slot by a panicker
+        let table = case.layout.table;
+        let st2 = stats.clone();
+        pcs[3] = (
+            case.layout.pc(3),
+            DynParallelPrecompile::new(PrecompileId::custom("verif-panicker"), move |input: &mut ParallelPrecompileInput<'_>| {
+                st2.calls.fetch_add(1, Ordering::Relaxed);
+                let reservoir = input.reservoir();
+                let data = input.data().to_vec();
+                let a = table_addr(small(word(&data, 0), table));
+                let val = input.state().sload(a, U256::ZERO)?.data;
+                if val % U256::from(3u64) == U256::from(2u64) {
+                    st2.panics.fetch_add(1, Ordering::Relaxed);
+                    panic!("{} precompile at slot value {val}", crate::db::PANIC_PREFIX);
+                }
+                Ok(out(val, 200, reservoir))
+            }),
+        );
+        let pw = ProfileWeights {
+            focus_classes: &[Class::Wait, Class::Abort, Class::Dep, Class::Commit],
+            directors: obs::D_COORD | obs::D_WAIT | obs::D_AFTER_NOTIFY | obs::D_FINISH_AT_HEAD,
+            ..ProfileWeights::default()
+        };
+        let rc = pick_runcfg(&mut r, case.txs.len(), &pw, 10);
+        let plan = FaultPlan::default();
+        let out = run_grevm(&case, &rc, &plan, Some(Arc::new(pcs)));
+        let mut violations = Vec::new();
+        if let Some(sv) = stall_violation(&out) {
+            violations.push(sv);
+        }
+        let (tv, tstats) = check_trace(&TraceInput { trace: &out.trace, n_txs: case.txs.len(), outcomes: &out.outcomes, reference: None, errored: out.result.is_err() });
+        let fired = stats.panics.load(Ordering::Relaxed);
+        match (&out.panic, fired) {
+            (Some(msg), f) if f > 0 => {
+                rep.bump("panics_propagated", 1);
+                rep.bump("precompile_panics_propagated", 1);
+                if !msg.contains(crate::db::PANIC_PREFIX) || !msg.contains("precompile") {
+                    violations.push(vio("PANIC", "C05", format!("the precompile's panic reached the caller with a different payload: {msg}")));
+                }
+            }
+            (None, f) if f > 0 => violations.push(vio(
+                "PANIC",
+                "C05",
+                format!("a custom precompile panicked {f} time(s) inside a worker but execute() returned {:?} instead of unwinding", out.result),
+            )),
+            (Some(msg), _) => violations.push(vio("PANIC", "C05", format!("execute() panicked without an injected panic: {msg}"))),
+            _ => {}
+        }
+        if out.stall.is_none() && out.panic.is_none() {
+            violations.extend(tv);
+        }
+        rep.bump(
+            match &out.result {
+                Ok(()) => "returned_ok",
+                Err((k, _)) if *k == usize::MAX => "returned_by_unwinding",
+                Err(_) => "returned_err",
+            },
+            1,
+        );
+        let nontrivial = fired > 0 || (tstats.parks > 0 && tstats.dep_cleared_by_remove + tstats.dep_commit_release > 0);
+        let ctx = IterCtx { prop: "C05", iter_seed, family_idx: 0 };
         record(rep, &ctx, &case, &rc, &plan, &out, &tstats, violations, nontrivial);
     }
 }
@@ -455,6 +545,9 @@ impl DebitWatch {
 
 impl<CTX: ContextTr<Journal: JournalTr<State = revm_state::EvmState>>> Inspector<CTX, EthInterpreter> for DebitWatch {
     fn call(&mut self, context: &mut CTX, inputs: &mut CallInputs) -> Option<CallOutcome> {
+        if std::env::var("VERIF_DEBUG").is_ok() {
+            eprintln!("  call depth={} {:?} caller={} target={} value={:?} caller_balance={}", self.frames.len(), inputs.scheme, inputs.caller, inputs.target_address, inputs.value, Self::balance(context, inputs.caller));
+        }
         let root = self.frames.is_empty();
         let mut list = Vec::new();
         if !root &&
@@ -468,6 +561,9 @@ impl<CTX: ContextTr<Journal: JournalTr<State = revm_state::EvmState>>> Inspector
         None
     }
     fn call_end(&mut self, _context: &mut CTX, _inputs: &CallInputs, outcome: &mut CallOutcome) {
+        if std::env::var("VERIF_DEBUG").is_ok() {
+            eprintln!("  call_end depth={} result={:?}", self.frames.len(), outcome.result.result);
+        }
         self.close(outcome.result.result.is_ok());
     }
     fn create(&mut self, context: &mut CTX, inputs: &mut CreateInputs) -> Option<CreateOutcome> {
@@ -483,6 +579,9 @@ impl<CTX: ContextTr<Journal: JournalTr<State = revm_state::EvmState>>> Inspector
         self.close(outcome.result.result.is_ok());
     }
     fn selfdestruct(&mut self, contract: Address, _target: Address, value: U256) {
+        if std::env::var("VERIF_DEBUG").is_ok() {
+            eprintln!("  selfdestruct depth={} contract={contract} target={_target} value={value}", self.frames.len());
+        }
         if !value.is_zero() &&
             let Some(top) = self.frames.last_mut()
         {
@@ -506,6 +605,8 @@ fn reserve_family() -> GenParams {
         pre_delegated: 3,
         hot_sender_pct: 45,
         reserve_shape: true,
+        refunder_contract: true,
+        invalid_pct: 4,
         basefees: &[7],
         ..GenParams::default()
     }
@@ -695,4 +796,25 @@ fn stock_with_rule(case: &Case, enforce_create_guard: bool) -> (Vec<RuleVerdict>
         loaded: Vec::new(),
     };
     (verdicts, r)
+}
+
+
+/// Debug helper: print the rule verdicts and surviving debits of the stock run for one C13 case.
+pub fn debug_c13(iter_seed: u64) {
+    let mut r = Rng::new(iter_seed);
+    let case = generate(&reserve_family(), r.next());
+    println!("{}", serde_json::to_string_pretty(&case.summary()).unwrap());
+    for (a, p) in &case.programs {
+        println!("program {a}: {:?}", p.stmts);
+    }
+    for (a, s) in &case.db.accounts {
+        println!("account {a}: balance {} nonce {} code {:?}", s.balance, s.nonce, s.code.as_ref().map(|c| if c.len() == 23 { format!("delegation->{}", Address::from_slice(&c[3..])) } else { format!("{}B", c.len()) }));
+    }
+    for guard in [false, true] {
+        let (verdicts, stock) = stock_with_rule(&case, guard);
+        println!("--- create guard enforced in stock run: {guard}");
+        for (i, v) in verdicts.iter().enumerate() {
+            println!("tx {i}: {v:?} -> {:?}", stock.outcomes.get(i).map(|o| format!("{o:?}").chars().take(120).collect::<String>()));
+        }
+    }
 }
